@@ -198,7 +198,7 @@ def chainAns (st : RS) (res : Resolved) : String :=
     | .notFound => "notfound"
   kind ++ " " ++ natList (chain d404 d405 st.toScope res)
 
-def regStep (s : RegSt) : List String → RegSt × String
+partial def regStep (s : RegSt) : List String → RegSt × String
   | ["new", o] => (RegSt.fresh o, "ok")
   | ["new", o, c] =>
     match c.toNat? with
@@ -260,6 +260,17 @@ def regStep (s : RegSt) : List String → RegSt × String
       let names := (st.routes.map (·.name)).filter (· ≠ [])
       let ts := names.filterMap fun n => (namedRoute st n).map fun r => s!"{Bytes.toHex n}={Bytes.toHex r.path}"
       (s, "names " ++ (if ts.isEmpty then "-" else String.intercalate " " (sortStrs ts).eraseDups))
+  | ["probeq", m, p] =>
+    -- the raw request target: `%2F` / `%2f` are slashes of the decoded path the router matches on
+    match Bytes.ofHex p with
+    | some raw =>
+      let rec dec : Nat → Bytes → Bytes
+        | 0, _ => []
+        | _, [] => []
+        | n + 1, 0x25 :: 0x32 :: c :: rest => if c = 0x46 ∨ c = 0x66 then 0x2F :: dec n rest else 0x25 :: dec n (0x32 :: c :: rest)
+        | n + 1, b :: rest => b :: dec n rest
+      regStep s ["probe", m, Bytes.toHex (dec (raw.length + 1) raw)]
+    | none => (s, "bad-op")
   | ["probe", m, p] =>
     match s.st, Bytes.ofHex p with
     | none, _ => (s, "skipped")
